@@ -75,7 +75,7 @@ def h09a(mask: int, ttls: int, label: int, k1: int, k2: int) -> bool:
     z = build_zone(kind, relativize, mask, ttls, label if S("label") else None)
     kw = {"origin": ORIGIN, "relativize": relativize, "nl": "\n"}
     if group == "order":
-        kw.update(sorted=k1 % 2 == 1, want_origin=(k1 // 2) % 2 == 1, deduplicate_names=k2 % 2 == 1, default_ttl=[None, 300, 86400][(k2 // 2) % 3])
+        kw.update(sorted=k1 % 2 == 1, want_origin=(k1 // 2) % 2 == 1, deduplicate_names=k2 % 2 == 1, default_ttl=[None, 0, 300, 86400][(k2 // 2) % 4])
     elif group == "just":
         kw.update(name_just=[0, -20, -3][k1 % 3], ttl_just=[0, -12, 12][(k1 // 3) % 3], rdclass_just=[0, -6, 6][k2 % 3], rdtype_just=[0, -8, 8][(k2 // 3) % 3])
     elif group == "chunks":
@@ -97,7 +97,7 @@ def h09a(mask: int, ttls: int, label: int, k1: int, k2: int) -> bool:
     return True
 
 
-FIXED_TTLS = sum([2 * 4**i for i in range(len(POOL))])
+FIXED_TTLS = sum([(i % 4) * 4**i for i in range(len(POOL))])  # member i has TTL TTLS[i % 4]: 0, 7, 300, 2^31-1, 0, ...
 CHUNKS = [0, 1, 2, 3, 4, 5, 8, 16, 32, 40]
 
 
@@ -113,7 +113,7 @@ def h09a_pre(mask, ttls, label, k1, k2):
         return False
     group = S("group")
     if group == "order":
-        return 0 <= k1 <= 3 and 0 <= k2 <= 5
+        return 0 <= k1 <= 3 and 0 <= k2 <= 7
     if group == "just":
         if S("tier") == "quick" and not (k2 == k1 or k2 == (k1 + 4) % 9):
             return False  # quick: 18 of the 81 combinations (every value of every knob, paired two ways)
@@ -267,7 +267,7 @@ HARNESSES = [
     Harness("H09a", h09a, h09a_pre, h09a_shards, kind="finite selection of style knobs / members with universal owner octet",
             encodes=["dns.zone.Zone.to_styled_file", "dns.rdataset.Rdataset.to_styled_text", "dns.node.Node.to_styled_text", "dns.zone.from_text",
                      "dns.zonefile.Reader.read", "dns.zonefile.Reader._rr_line", "dns.rdata.Rdata.to_generic", "dns.rdataset.justify"],
-            bound="a 10-rrset zone (wildcard, escaped owner, CNAME, delegation + glue, DNSKEY, TXT with quotes / semicolons / high octets; TTLs 0..2^31-1) under 4 knob groups, one group symbolic at a time: {sorted, want_origin, deduplicate_names, default_ttl} | {name/ttl/class/type justification, left or none} | {base64 and hex chunk sizes 0..40; quick: 10 pooled sizes, and 18 of the 81 justification combinations} | {want_generic, want_comments}; plus a symbolic one-octet owner label (all 256 values) and, on the plain zone, every membership of the first 3 (thorough: 5) pool rrsets with a symbolic TTL choice (4 values) per member; zone classes plain, btree (thorough: versioned) x relativize",
+            bound="a 10-rrset zone (wildcard, escaped owner, CNAME, delegation + glue, DNSKEY, TXT with quotes / semicolons / high octets; TTLs 0..2^31-1) under 4 knob groups, one group symbolic at a time: {sorted, want_origin, deduplicate_names, default_ttl in None / 0 / 300 / 86400} | {name/ttl/class/type justification, left or none} | {base64 and hex chunk sizes 0..40; quick: 10 pooled sizes, and 18 of the 81 justification combinations} | {want_generic, want_comments}; plus a symbolic one-octet owner label (all 256 values) and, on the plain zone, every membership of the first 3 (thorough: 5) pool rrsets with a symbolic TTL choice (4 values) per member; zone classes plain, btree (thorough: versioned) x relativize",
             stubs=["E2", "E3", "E4", "E6"], outside="knob combinations across groups; zones with > 10 rrsets; $INCLUDE; options documented as lossy"),
     Harness("H09b", h09b, h09b_pre, lambda tier: [{"relativize": r, "_timeout": 1200, "_path_timeout": 120} for r in (True, False)], kind="finite selection, exhaustive",
             encodes=["dns.zonefile.Reader._rr_line", "dns.zonefile.Reader.read", "dns.zonefile.Reader._generate_line", "dns.zonefile.Reader._parse_modify",
